@@ -675,6 +675,11 @@ class ExprMixin:
             return
         rec = self.ast.record_def(rid)
         args = e.get('inner', [])
+        if self.model_record(rid):
+            self.need_record(rid)
+            if self.model_construct(e, rec, target, args, cx):
+                return
+            self.err(e, 'constructor of a modelled library class outside the model')
         ctor = self.ctor_of(e)
         # copy / move of the same class
         if len(args) == 1:
